@@ -42,6 +42,7 @@ impl<'a> World<'a> {
                 if v.geom.fat32 {
                     let (c, hnt) = self.disk.with_image(|img| (img.u32_at(v.geom.fsinfo, 488), img.u32_at(v.geom.fsinfo, 492)));
                     v.info_at_mount = Some((c, hnt, v.free));
+                    v.hint_named_free_at_mount = hnt >= 2 && hnt < v.geom.clusters + 2 && matches!(v.fat.val(hnt), fatspec::FatVal::Free);
                 }
                 self.probes.hit("volume_opened");
                 if t > 0 {
